@@ -60,6 +60,7 @@ type loc struct {
 	fname   string
 	baseVal ssa.Value
 	ownerT  types.Type
+	enc     *loc // the by-value struct field this place lies inside (d.d.KeepAlive lies inside dialer.d)
 }
 
 type deferred struct {
@@ -1117,6 +1118,19 @@ func (t *fnTrans) fieldAddr(in *ssa.FieldAddr) {
 	f := st.Field(in.Field)
 	term := t.faddr(owner, in.Field, base)
 	t.vals[in] = []string{term}
+	var enc *loc
+	if pl, ok := t.locs[in.X]; ok && pl.kind == locCell {
+		if pl.owner != "" {
+			enc = pl
+		} else {
+			enc = pl.enc
+		}
+	}
+	defer func() {
+		if l := t.locs[in]; l != nil && enc != nil {
+			l.enc = enc
+		}
+	}()
 	if _, isStruct := t.isStruct(f.Type()); isStruct {
 		// nested struct: its fields are addressed through the faddr term
 		if t.local[in.X] {
